@@ -6,12 +6,37 @@
    their source text and carries decorator.go's avoid table. *)
 From Coq Require Import List String ZArith NArith Bool.
 Import ListNotations.
-From DV Require Import Model.Resolvers Proofs.ResolverProofs Gen.ResolverSrc.
+From DV Require Import Model.Resolvers Proofs.ResolverProofs Proofs.ResolverAgree Gen.ResolverSrc
+  Model.Decision Model.DecisionInterp Gen.DecisionSrc Proofs.DecisionProofs.
 Local Open Scope string_scope.
 Local Open Scope list_scope.
 
-(* the modelled functions still have the text the models were written against, and the avoid
-   table of decorator.go is the model's *)
+(* Three of the modelled functions are translated, statement by statement, into decision programs
+   (Gen/DecisionSrc.v; bindings inlined symbolically, every statement outside the language of
+   guarded returns is DUnknown): the programs stay inside the vocabulary the interpretations
+   know, and on EVERY abstract state -- any shape of the site, anything types.Info can say about
+   the identifier and about X, any import table, any raw path, local path, option setting and
+   Parent.Field name -- the translated source returns what the hand model returns (including
+   where the code panics or passes the resolver's error on). *)
+Theorem C09_translated_sources_are_within_the_vocabulary :
+  gotypes_src_agrees gotypes_resolveident_src && goast_src_agrees goast_resolveident_src && resolvepath_src_agrees resolvepath_src = true.
+Proof. vm_compute. reflexivity. Qed.
+
+Theorem C09_gotypes_source_computes_the_model : forall g,
+  out_string (gotypes_syms g) (run (fun p => str_case p (gotypes_preds g) false) gotypes_resolveident_src) = gotypes_resolve (g_occ g).
+Proof. exact gotypes_source_is_model. Qed.
+
+Theorem C09_goast_source_computes_the_model : forall a,
+  out_string (goast_syms a) (run (fun p => str_case p (goast_preds a) false) goast_resolveident_src) = goast_model a.
+Proof. exact goast_source_is_model. Qed.
+
+Theorem C09_resolvepath_source_computes_the_model : forall p,
+  out_string (resolvepath_syms p) (run (fun q => str_case q (resolvepath_preds p) false) resolvepath_src) = resolvepath_model p.
+Proof. exact resolvepath_source_is_model. Qed.
+
+(* the two remaining modelled functions (goast.imports: a loop over the file; stripVendor: string
+   search) still have the text the models were written against -- and are corresponded on every run
+   (mismatch_goast, mismatch_strip_vendor) --, and the avoid table of decorator.go is the model's *)
 Theorem C09_models_transcribe_the_source :
   forallb (fun e => snd e) resolver_sources_pinned
   && forallb (fun a => existsb (String.eqb a) avoid_list) avoid_src
@@ -51,7 +76,43 @@ Example C09_goast_refuses_duplicate_names :
   goast_scan (fun p => Some "a") [mkISpec "root/a" ""; mkISpec "root/b/a" ""] [] = GIError "multiple packages using one name".
 Proof. vm_compute. reflexivity. Qed.
 
-(* goast agrees with gotypes on qualified identifiers when names are accurate and unshadowed *)
+(* goast agrees with gotypes on every file it accepts.  (1) For the Sel of a selector whose X is an
+   unshadowed identifier that the type checker resolves to the package imported by spec s (the
+   spec's path and the checker's path equal up to a vendor prefix), both lead resolvePath to the
+   same path; (2) every identifier that is neither qualified nor dot-imported gets no path from
+   either; (3) a qualifier that is no import name of the file resolves to nothing. *)
+Theorem C09_goast_agrees_on_qualified_identifiers :
+  forall name_of specs m s n ptypes importing local uses,
+  goast_scan name_of specs [] = GIOk m ->
+  In s specs -> ordinary_spec s = true -> spec_name name_of s = Some n ->
+  strip_vendor (is_path s) = strip_vendor ptypes ->
+  resolve_path true local false "SelectorExpr.Sel" (goast_resolve m true (Some n) false) =
+  resolve_path true local false "SelectorExpr.Sel" (gotypes_resolve (mkOcc (Some (XIdent (Some (TPkgName ptypes importing)))) uses)).
+Proof. exact goast_agrees_on_qualified. Qed.
+
+Theorem C09_goast_agrees_elsewhere :
+  forall local r pdf, in_avoid pdf = false ->
+  (forall p, r <> DotImported p) -> (forall p, r <> Qualified p) ->
+  resolve_path false local false pdf (gotypes_resolve (occurrence_of local r)) = "" /\
+  forall m, goast_resolve m false None false = "".
+Proof. exact goast_agrees_elsewhere. Qed.
+
+Theorem C09_goast_unknown_qualifier_gets_no_path :
+  forall name_of specs m n, goast_scan name_of specs [] = GIOk m ->
+  (forall s, In s specs -> ordinary_spec s = true -> spec_name name_of s <> Some n) ->
+  goast_resolve m true (Some n) false = "".
+Proof. exact goast_unknown_qualifier. Qed.
+
+(* the table goast builds is exactly bound name -> path of the ordinary import specs *)
+Theorem C09_goast_table_is_exact :
+  forall name_of specs m, goast_scan name_of specs [] = GIOk m ->
+  (forall s, In s specs -> ordinary_spec s = true -> exists n, spec_name name_of s = Some n /\ lookup m n = Some (is_path s)) /\
+  (forall k v, lookup m k = Some v -> exists s, In s specs /\ ordinary_spec s = true /\ spec_name name_of s = Some k /\ is_path s = v).
+Proof.
+  intros name_of specs m H. destruct (goast_scan_table name_of specs [] m H) as [_ [B C]]. split; [exact B|].
+  intros k v Hk. destruct (C k v Hk) as [L|R]; [discriminate L|exact R].
+Qed.
+
 Example C09_goast_agrees_on_qualified :
   match goast_scan (fun p => if String.eqb p "root/a" then Some "a" else None) [mkISpec "root/a" ""; mkISpec "root/vendor/ext/v" "vv"; mkISpec "os" "_"] [] with
   | GIOk m => goast_resolve m true (Some "a") false = gotypes_resolve (occurrence_of "root/main" (Qualified "root/a"))
@@ -67,6 +128,14 @@ Example C09_vendor_prefix_removed :
   expected_path "root/main" (FieldKey (Some "root/a")) = "".
 Proof. vm_compute. repeat split. Qed.
 
+Print Assumptions C09_translated_sources_are_within_the_vocabulary.
+Print Assumptions C09_gotypes_source_computes_the_model.
+Print Assumptions C09_goast_source_computes_the_model.
+Print Assumptions C09_resolvepath_source_computes_the_model.
+Print Assumptions C09_goast_agrees_on_qualified_identifiers.
+Print Assumptions C09_goast_agrees_elsewhere.
+Print Assumptions C09_goast_unknown_qualifier_gets_no_path.
+Print Assumptions C09_goast_table_is_exact.
 Print Assumptions C09_models_transcribe_the_source.
 Print Assumptions C09_gotypes_assigns_paths_exactly.
 Print Assumptions C09_gotypes_assigns_paths_exactly_forced_sel.
